@@ -30,9 +30,10 @@ def run(chk, tier):
                 "reference or an interior-mutability type carries a 'static predicate, and every lifetime in the Self type of "
                 "any Collect impl is 'static or the brand of a type of this crate (no Collect at a free lifetime for "
                 "references or foreign borrowing types such as Cow/Ref); (3) the complete inventory "
-                "of lifetime-only transmutes is confined to the reviewed dynamic-root functions and in "
-                "fetch/try_fetch the re-branding transmute is dominated by the true edge of contains(), which "
-                "compares Rc::as_ptr with Weak::as_ptr; (4) no exported function returns a branded type at "
+                "of lifetime-only transmutes is confined to the reviewed dynamic-root functions; fetch/try_fetch, "
+                "interpreted from MIR with contains() answered both ways, hand out the re-branded pointer exactly when "
+                "it said yes, and contains(), interpreted on terms, is the identity comparison of the set's Rc with the "
+                "handle's Weak slot table; (4) no exported function returns a branded type at "
                 "'static; (5) the escape corpus: each violating client program is rejected by rustc for the "
                 "expected reason and its twin (differing only in the offending lines) compiles.")
     chk.not_decided += ["soundness of rustc's lifetime checking (trusted)", "programs using unsafe (outside the property)"]
